@@ -26,7 +26,11 @@ var m = bs["?m"];
 var log = bs.log || [];
 log.push(m);
 if (m && typeof m === 'object' && m.emit) {
-  for (var i = 0; i < m.emit.length; i++) { _.out(m.emit[i]); }
+  for (var i = 0; i < m.emit.length; i++) {
+    var e = JSON.parse(JSON.stringify(m.emit[i]));
+    if (e && typeof e === 'object' && !Array.isArray(e)) { e.by = _.props.mid; }
+    _.out(e);
+  }
 }
 return {log: log};
 `
@@ -170,6 +174,20 @@ func genRoutedMsg(t *rapid.T, mids []string, depth int, label string, counter *i
 				em = append(em, genRoutedMsg(t, mids, depth+1, fmt.Sprintf("%s.%d", label, i), counter, allowRepeat, m["n"].(float64)))
 			}
 			m["emit"] = em
+			// Which of several machines reacts first to one message is
+			// not specified, so crew operations must not be emitted by
+			// several machines at once (the crew would depend on that
+			// order): the parent of a crew operation goes to one machine.
+			for _, e := range em {
+				if em1, ok := e.(map[string]interface{}); ok {
+					_, sp := em1["spawn"]
+					_, de := em1["despawn"]
+					if sp || de {
+						m["to"] = rapid.SampledFrom(append(append([]string{}, mids...), spawnPool...)).Draw(t, label+".single")
+						break
+					}
+				}
+			}
 		}
 	}
 	return m
@@ -355,8 +373,12 @@ func checkRoute(c RouteCase) (v ev.Verdict) {
 				wantLog[mid] = append(wantLog[mid], jsongen.Canon(cur))
 				if m, ok := cur.(map[string]interface{}); ok {
 					if em, ok := m["emit"].([]interface{}); ok && len(em) > 0 {
-						wantBatches = append(wantBatches, jsongen.Canon(em))
-						queue = append(queue, em...)
+						stamped := make([]interface{}, len(em))
+						for i, e := range em {
+							stamped[i] = stampBy(e, mid)
+						}
+						wantBatches = append(wantBatches, jsongen.Canon(stamped))
+						queue = append(queue, stamped...)
 					}
 				}
 			}
@@ -415,6 +437,12 @@ func checkRoute(c RouteCase) (v ev.Verdict) {
 			// (several machines emitted it); each arrival must be in
 			// list order, i.e. the sequence splits into equal
 			// increasing runs
+			if at, sp := spawnedAt[mid]; sp && at == mi {
+				// created while this batch was under way: it joined in
+				// the middle of some emission list, so its first run of
+				// that list is only a tail of the later ones
+				continue
+			}
 			for pf, ns := range perParent {
 				var runs [][]float64
 				for i, n := range ns {
@@ -497,4 +525,15 @@ func TestC14Sio(t *testing.T) {
 	ev.Run(t, ev.Opts{Property: "C14", Name: "sio", Quick: 1200, Thorough: 60000,
 		Rule: "recorder crews (0-6 machines) x 1-6 submitted messages whose 'to' is absent, a known/unknown id, '*', a list with unknown, repeated and non-string members, a service name or a non-string, and whose 'emit' trees (depth <= 3) are re-injected, in a third of the cases with crew operations for the captain inside the trees (recorder machines created and deleted while messages of the same batch, some addressed to them, are still queued); per machine the multiset of received messages and the multiset of reported emission batches must equal the routing model's; non-trivial = >= 2 machines, >= 1 routed, >= 1 broadcast and >= 1 re-injected message"},
 		genRoute, checkRoute)
+}
+
+// stampBy is what the recorder does to each message it emits: a copy that
+// names the emitting machine, so that the emissions of different machines
+// reacting to one message can be told apart.
+func stampBy(e interface{}, mid string) interface{} {
+	c := jsongen.Copy(e)
+	if m, ok := c.(map[string]interface{}); ok {
+		m["by"] = mid
+	}
+	return c
 }
